@@ -95,6 +95,26 @@ def compute_hash(content: str) -> str:
     return hashlib.sha256(content.encode("utf-8")).hexdigest()
 
 
+def missing_parent_dirs(path: Path) -> list[Path]:
+    """Ancestor directories of path that do not exist yet, outermost first."""
+    missing: list[Path] = []
+    parent = path.parent
+    while parent != parent.parent and not parent.exists():
+        missing.append(parent)
+        parent = parent.parent
+    missing.reverse()
+    return missing
+
+
+def remove_created_dirs(created: list[Path]) -> None:
+    """Undo the mkdir of a write that failed: remove the directories it created, if still empty."""
+    for directory in reversed(created):
+        try:
+            directory.rmdir()
+        except OSError:
+            pass
+
+
 def atomic_write_octave(
     target_path: str,
     content: str,
@@ -158,8 +178,10 @@ def atomic_write_octave(
             }
 
     # Step 4: Atomic write
+    created_dirs: list[Path] = []
     try:
         # Ensure parent directory exists
+        created_dirs = missing_parent_dirs(path_obj)
         path_obj.parent.mkdir(parents=True, exist_ok=True)
 
         # Preserve permissions if file exists
@@ -201,6 +223,8 @@ def atomic_write_octave(
             raise
 
     except Exception as e:
+        # A failed write leaves no directories behind either
+        remove_created_dirs(created_dirs)
         return {
             "status": "error",
             "error": f"Write error: {str(e)}",
